@@ -36,7 +36,10 @@ def pair_stream(rng, tier, n, k=0, K=1, with_w4=True, kw_fn=None, nmax=None):
     w4 = w4_stream(rng, k, K) if (tier == "thorough" and with_w4) else None
     for idx in range(n):
         r = rng.random()
-        if w4 is not None and r < 0.25:
+        if idx % 400 == 7 or (tier == "thorough" and r > 0.9995):
+            case = gen.long_pair(rng)
+            case["src"] = "W13"
+        elif w4 is not None and r < 0.25:
             case = next(w4)
             case["src"] = "W4"
         elif tier == "thorough" and r < 0.27 and gen.real_case(rng, env_repo(), 2):
